@@ -11,9 +11,14 @@ use util::*;
 
 include!(concat!(env!("OUT_DIR"), "/registry.rs"));
 
+thread_local! { static QUIET: std::cell::Cell<bool> = std::cell::Cell::new(false); }
+
 fn run_guarded(op: &str, a: &Args) -> String {
-    match catch_unwind(AssertUnwindSafe(|| run_impl(op, a))) {
-        Ok(Some(out)) => fmt_args(&out),
+    QUIET.with(|q| q.set(true));
+    let res = catch_unwind(AssertUnwindSafe(|| run_impl(op, a)));
+    QUIET.with(|q| q.set(false));
+    match res {
+        Ok(Some(out)) => if is_skip(&out) { "?".to_string() } else { fmt_args(&out) },
         Ok(None) => "!noimpl".to_string(),
         Err(_) => fmt_args(&err(E_PANIC)),
     }
@@ -21,7 +26,7 @@ fn run_guarded(op: &str, a: &Args) -> String {
 
 fn main() {
     let argv: Vec<String> = std::env::args().collect();
-    std::panic::set_hook(Box::new(|_| {}));
+    std::panic::set_hook(Box::new(|info| { if !QUIET.with(|q| q.get()) { eprintln!("harness panic (generator): {info}"); } }));
     match argv.get(1).map(|s| s.as_str()) {
         Some("gen") => {
             let prop = argv[2].to_lowercase();
